@@ -154,7 +154,8 @@ class Crate:
                     unattributed.append(m.get("rendered") or m.get("message"))
                 else:
                     code = (m.get("code") or {}).get("code") or ""
-                    errs.setdefault(k, []).append((code + " " + m.get("message", "")).strip())
+                    notes = " | ".join(ch.get("message", "") for ch in m.get("children", []) if ch.get("message"))
+                    errs.setdefault(k, []).append((code + " " + m.get("message", "") + ((" || " + notes) if notes else "")).strip())
             if p.returncode == 0:
                 self.exe = exe
                 log("  build %s: %d decls alive, %d rejected, %d rounds, %.1fs" % (self.name, len(self.alive), len(self.rejected), rnd + 1, t.s()))
@@ -241,7 +242,8 @@ def build_many(crates, release=False, max_rounds=8, tests=False):
                 unattributed.append((nm, m.get("rendered") or m.get("message")))
             else:
                 code = (m.get("code") or {}).get("code") or ""
-                errs.setdefault(nm, {}).setdefault(k, []).append((code + " " + m.get("message", "")).strip())
+                notes = " | ".join(ch.get("message", "") for ch in m.get("children", []) if ch.get("message"))
+                errs.setdefault(nm, {}).setdefault(k, []).append((code + " " + m.get("message", "") + ((" || " + notes) if notes else "")).strip())
         failing = [c for c in pending if c.name in errs]
         if unattributed and not failing:
             raise ToolError("build failed for a reason not attributable to a declaration:\n%s\n%s" % (
